@@ -145,6 +145,14 @@ class Bound:
         v = SpecEval(self.ex, st, dict(env, j=SInt(j) if z3.is_expr(j) else j), old).ev(src)
         return vals.zbool(vals.truthy_term(v, st.heap))
 
+    def clause_value(self, st, src, j, old=None, tight=False):
+        """the clause as a specification value (may contain quantifiers: goal position only)"""
+        env = self.env
+        if tight and "xeps" in env:
+            env = dict(env)
+            env["xeps"] = 0
+        return SpecEval(self.ex, st, dict(env, j=SInt(j) if z3.is_expr(j) else j), old).ev(src)
+
     def contiguity(self, st, j):
         ser = st.heap[self.env["c"].oid]
         out = []
@@ -424,7 +432,7 @@ def run_indicator_task(source, contracts, loops, spec, variant, natives=None, ti
                         continue
                     pre = "" if b is top else f"helper[{_short(b.N)}]:"
                     for label, src, props in b.inv_items(assume_only=(b is not top)):
-                        ex.ctx.oblige(st1, "inv-preserve", pre + label, b.clause(st1, src, i, old, tight=(b is top)), loop, props=props or None)
+                        oblige_spec(ex, st1, "inv-preserve", pre + label, b.clause_value(st1, src, i, old, tight=(b is top)), loop, props=props or None)
                     if b.role == "helper":
                         ex.ctx.oblige(st1, "inv-preserve", pre + "inputs-well-formed", b.contiguity(st1, i), loop)
                         jf = z3.Int(vals_fresh("jf"))
